@@ -54,6 +54,11 @@ def case_strategy(draw):
     if src.chance(1, 2):
         m["attrs"].insert(src.choice(len(m["attrs"]) + 1), cb2)
     m["helper_method"] = True
+    keyable = [a["name"] for i, a in enumerate(m["attrs"]) if i > 0 and a["type"] == ["str"] and a["default"][0] in ("lit", "attr_default") and a.get("init") is not False
+               and a["name"] not in (m.get("prepare") or {})]
+    if keyable and src.chance(1, 3) and not any(c["bases"] == ["M"] and c.get("redefaults") for c in wd["classes"]):
+        # the class is keyed by an attribute that is NOT declared first: repr, metadata and comparison keep declaration order
+        m["opts"]["key"] = src.pick(keyable)
     info = grammar.world_info(wd)
     n = 2 + src.choice(5)
     pool = []
